@@ -170,6 +170,10 @@ impl Model {
 struct RegSut {
     pool: Vec<(&'static str, Vec<D>)>,
     n: usize,
+    /// pool indices registered (on both sides) before the history starts
+    prelude: Vec<usize>,
+    /// pool indices the operations range over (empty = 0..n)
+    movable: Vec<usize>,
 }
 
 impl Sut for RegSut {
@@ -179,10 +183,11 @@ impl Sut for RegSut {
     }
     fn ops(&self, _hist: &[Op]) -> Vec<Op> {
         let mut v = vec![];
-        for i in 0..self.n {
+        let idx: Vec<usize> = if self.movable.is_empty() { (0..self.n).collect() } else { self.movable.clone() };
+        for &i in &idx {
             v.push(Op::Register(i));
         }
-        for i in 0..self.n {
+        for &i in &idx {
             v.push(Op::Unregister(i));
         }
         v
@@ -192,6 +197,11 @@ impl Sut for RegSut {
         let mut model = Model::default();
         let mut transcript = vec![];
         let mut had_failed_register = false;
+        for &i in &self.prelude {
+            if reg.register(real_collector(i, &self.pool[i].1)).is_err() || model.register(i, &self.pool[i].1) != Exp::Ok {
+                return Err(Disagreement { signature: "prelude".into(), what: format!("prelude registration of {} failed", self.pool[i].0), transcript });
+            }
+        }
         let name = |o: &Op| match o {
             Op::Register(i) => format!("register({})", self.pool[*i].0),
             Op::Unregister(i) => format!("unregister({})", self.pool[*i].0),
@@ -383,7 +393,7 @@ fn main() {
             std::process::exit(vsched::replay_cli("C06", p, &doc, reg_driver_from_spec));
         }
         let ops: Vec<Op> = replay_value_ops(&doc).iter().map(|s| parse_op(s, &pool)).collect();
-        let sut = RegSut { n: pool.len(), pool };
+        let sut = RegSut { n: pool.len(), pool, prelude: vec![], movable: vec![] };
         let r1 = sut.replay(&ops);
         let r2 = sut.replay(&ops);
         match (&r1, &r2) {
@@ -407,18 +417,36 @@ fn main() {
     let n = if thorough { pool.len() } else { 8 };
     let depth = if thorough { 24 } else { 16 };
     rep.rule = format!(
-        "explicit-state BFS (stateright) over all histories of register(k)/unregister(k) for k in the first {} collectors of the pool {:?}, to a fixpoint (state = real registry dump + reference model state; depth safety net {}); each transition rebuilds a fresh Registry, replays the history, compares every call's result class with the reference registry and gather() with the reference gather after every call. distinct = unique states",
+        "explicit-state BFS (stateright) over all histories of register(k)/unregister(k) for k in the first {} collectors of the pool {:?}, to a fixpoint (state = real registry dump + reference model state; depth safety net {}); each transition rebuilds a fresh Registry, replays the history, compares every call's result class with the reference registry and gather() with the reference gather after every call. distinct = unique states. A second BFS starts from a registry holding 24 counters and ranges over the collectors with the smallest, largest and median descriptor id, a two-descriptor collector overlapping the largest one and a fresh counter.",
         n,
         pool.iter().map(|(k, ds)| format!("{}={:?}", k, ds.iter().map(|d| format!("{}/{}{:?}{:?}", d.name, d.help, d.consts, d.vars)).collect::<Vec<_>>())).collect::<Vec<_>>(),
         depth
     );
     rep.bounds = json!({"collectors": n, "depth_safety_net": depth});
     let cpool = pool.clone();
-    let out = explore(RegSut { pool, n }, depth, if thorough { 1500 } else { 120 }, "registry", &mut rep);
+    let out = explore(RegSut { pool, n, prelude: vec![], movable: vec![] }, depth, if thorough { 1500 } else { 120 }, "registry", &mut rep);
     if !out.fixpoint {
         rep.exhaustive = false;
         if rep.cap_hit.is_none() {
             rep.cap_hit = Some(format!("depth bound {} reached before the fixpoint", depth));
+        }
+    }
+    // large registry: 24 counters registered up front (more than any small-size fast path), then every history
+    // (to a fixpoint) over the collectors with the smallest / largest / median descriptor id, a two-descriptor
+    // collector overlapping the largest one, and a fresh counter
+    {
+        let leak = |s: String| -> &'static str { Box::leak(s.into_boxed_str()) };
+        let mut big: Vec<(&'static str, Vec<D>)> = (0..24).map(|i| { let n = leak(format!("b{:02}", i)); (n, vec![d(n, "hb")]) }).collect();
+        let mut by_id: Vec<(u64, usize)> = big.iter().enumerate().map(|(i, (_, ds))| (ds[0].real().id, i)).collect();
+        by_id.sort();
+        let (imin, imed, imax) = (by_id[0].1, by_id[12].1, by_id[23].1);
+        let max_name = big[imax].0;
+        big.push(("overlap", vec![d("x_extra", "hx"), d(max_name, "hb")]));
+        big.push(("fresh", vec![d("fresh", "hf")]));
+        let movable = vec![imin, imax, imed, 24, 25];
+        let out2 = explore(RegSut { n: big.len(), pool: big, prelude: (0..24).collect(), movable }, 14, if thorough { 600 } else { 100 }, "registry-with-24-collectors", &mut rep);
+        if !out2.fixpoint {
+            rep.exhaustive = false;
         }
     }
     // concurrent part (E1): register/unregister/gather from 2-3 threads on one registry
